@@ -8,6 +8,7 @@ public class BigNat2 {
   public static Value BAddMod(Value a, Value b, Value m) { return canon(toBig(a).add(toBig(b)).mod(toBig(m))); }
   public static Value BSubMod(Value a, Value b, Value m) { return canon(toBig(a).subtract(toBig(b)).mod(toBig(m))); }
   public static Value BPowMod(Value a, Value e, Value m) { return canon(toBig(a).modPow(toBig(e), toBig(m))); }
+  public static Value BMod(Value a, Value m) { return canon(toBig(a).mod(toBig(m))); }
   public static Value BBit(Value a, Value i) { return toBig(a).testBit(((IntValue) i).val) ? IntValue.gen(1) : IntValue.gen(0); }
   public static Value BBitLen(Value a) { return IntValue.gen(toBig(a).bitLength()); }
   public static Value BFromBE(Value a) { return canon(toBig(a)); }
